@@ -2,9 +2,11 @@
 
 Correspondence: random histories over the public API (`Node.shard`, `set_pipeline_stage`,
 `Model.add_/remove_device_configuration(cascade)`, `replace_input_with`, `resize_inputs/outputs`,
-`Graph.append/remove(safe)` on root graphs and on subgraphs, attaching subgraphs to nodes
-(`node.attributes.add(AttrGraph(...))`), `Value.name=`, `Model.clone`, serialize->bytes->deserialize;
-nodes in subgraphs use and shard outer-scope values) are run on
+`Graph.append/remove(safe)` on root graphs and on subgraphs (also re-attaching a removed node, to the same
+or another model), attaching subgraphs to nodes (GRAPH and GRAPHS attributes), `register_initializer`,
+`Value.name=` / `Value.shape=`, direct assignment of `node.device_configurations` /
+`model.device_configurations`, `Model.clone(deep_copy=)`, serialize->bytes->deserialize; nodes in subgraphs
+use and shard outer-scope values and initializers) are run on
 the real objects and on the Lean model `IrVerif.Device` (driver command `device.run`); after every
 operation the complete canonical state is compared: io lists and `device_configurations` of every
 node, `Model.device_configurations`, the output of the internal checker
@@ -24,8 +26,10 @@ names; a detach drops exactly the specs whose target left the node and touches n
 raising call leaves every object unchanged and `shard` / `set_pipeline_stage` raise exactly for the
 invalid requests; a round trip / clone reproduces the annotations on the new objects.
 
-A third, oracle-only stream runs the same oracles on a model with an `If` node (two subgraphs that
-use outer-scope values) and a *function* (functions are not in the Lean model).
+A third, oracle-only stream runs the same oracles on random models with subgraphs and *functions*
+(functions are not in the Lean model) at IR versions 10-12, including `Function.clone`,
+`Graph.clone(allow_outer_scope_values=True)`, `deep_copy=True` and `InlinePass` (the `mapped is None`
+branch of the clone remap).  Exceptions are compared by type against the documented rejections.
 """
 from __future__ import annotations
 
@@ -42,27 +46,34 @@ THEOREMS = [
     "IrVerif.Device.C19_checker_only_names",
     "IrVerif.Device.C19_drop",
     "IrVerif.Device.C19_reject_atomic",
-    "IrVerif.Device.C19_names_current",
+    "IrVerif.Device.C19_checks_precede_writes",
     "IrVerif.Device.C19_serializable",
     "IrVerif.Device.C19_roundtrip_faithful",
 ]
 ASSUMPTIONS = [
-    "graphs nest (a node may own subgraphs whose nodes use outer-scope values; clone and the by-name "
-    "resolution through all enclosing scopes are inside the model and the theorems); functions, graph outputs "
-    "and initializers are not modelled (functions are exercised by the oracle-only stream)",
+    "graphs nest (a node may own subgraphs - GRAPH and GRAPHS attributes - whose nodes use outer-scope values) and "
+    "own initializers (sharded like any other value); clone and the by-name resolution through all enclosing scopes "
+    "are inside the model and the theorems; functions and graph outputs are not modelled (functions, "
+    "Function.clone, Graph.clone(allow_outer_scope_values=True), deep_copy and InlinePass - the 'mapped is None' "
+    "branch of the clone remap - are exercised by the oracle-only stream on random models at IR versions 10-12)",
     "a model's flat node / graph lists in the Lean world are compared as sets with graph.all_nodes() / "
     "Model.graphs() after every operation; checker output and serialized fields are compared per node",
-    "annotation records are those the public API creates (shard / set_pipeline_stage); hand-built "
-    "NodeDeviceConfiguration/ShardingSpec records (value=None, configuration=None, group maps, several "
-    "simple_shardings per axis) are outside the alphabet",
+    "annotation records are those the public API creates, or directly assigned tuples of the same shape "
+    "(setDev / setModelCfgs ops); records with value=None, configuration=None, group maps or several "
+    "simple_shardings per axis are outside the alphabet",
     "value names None and '' are identified (the harness names anonymous values '' right after creation); "
-    "every generated value carries a tensor type so that its shape is serialized",
-    "in-alphabet stream (= the Lean `Pre`, evaluated by the driver for every operation): configurations passed to shard/set_pipeline_stage are registered on the node's model, "
-    "device indices are within num_devices, sharded values have non-empty names that are unique within the "
-    "model, shapes are not edited after creation, nodes are not re-attached to a graph after removal, "
-    "remove_device_configuration is called with cascade=True; the wild stream drops these restrictions and is "
-    "used for the correspondence (including the checker's error output) and the unconditional oracles only",
+    "every generated value carries a tensor type so that its shape is serialized; initializer shapes are concrete",
+    "in-alphabet stream (= the Lean `Pre`, evaluated by the driver for every operation): configurations passed to "
+    "shard/set_pipeline_stage are registered on the node's model (known finding D192: the API cannot check it), "
+    "sharded values have non-empty names that are unique within the model, a shape is edited only on a value that "
+    "is not sharded, a node is re-attached only to a model that registers the configurations it references, a "
+    "directly assigned tuple is well formed, remove_device_configuration is called with cascade=True; the wild "
+    "stream drops these restrictions (stale configurations, cascade=False, empty/duplicate names, shape edits "
+    "after sharding, hand-built ill-formed tuples, re-attachment anywhere) and is used for the correspondence "
+    "(including the checker's error output) and the unconditional oracles only",
     "Value.uses() is modelled as 'some node of the heap has the value as an input'",
+    "after InlinePass the axis-range / repeated-axis messages of the checker are not counted: inlining substitutes "
+    "arguments for formal parameters of unknown rank (observation, outside C19)",
 ]
 
 _MSG_KINDS = [
@@ -119,6 +130,9 @@ class Real:
         if id(n) not in self.nid:
             self.nid[id(n)] = len(self.nodes)
             self.nodes.append(n)
+            # node names are not part of the model; keep them globally unique so that checker messages and
+            # NodeProtos can be attributed to a node even after nodes moved between models
+            n.name = f"n{self.nid[id(n)]}"
         return self.nid[id(n)]
 
     def reg_graph(self, g):
@@ -259,7 +273,8 @@ class Real:
             "values": [[v.name or "", self._shape(v)] for v in self.values],
             "cfgs": [[c.name, c.num_devices, list(c.device_names)] for c in self.cfgs],
             "nodes": [self.node_state(n) for n in self.nodes],
-            "graphs": [{"i": [self.vid[id(v)] for v in g.inputs], "n": [self.nid[id(n)] for n in g]} for g in self.graphs],
+            "graphs": [{"i": [self.vid[id(v)] for v in g.inputs], "n": [self.nid[id(n)] for n in g],
+                        "t": [self.vid[id(v)] for v in g.initializers.values()]} for g in self.graphs],
             "models": models,
         }
 
@@ -288,6 +303,8 @@ class Real:
     def _reg_clone_graph(self, g):
         for v in g.inputs:
             self.reg_value(v)
+        for v in g.initializers.values():
+            self.reg_value(v)
         for n in g:
             for sg in self.subgraphs_of(n):
                 self._reg_clone_graph(sg)
@@ -298,6 +315,8 @@ class Real:
 
     def _reg_deser_graph(self, g):
         for v in g.inputs:
+            self.reg_value(v)
+        for v in g.initializers.values():
             self.reg_value(v)
         for n in g:
             for v in n.outputs:
@@ -319,11 +338,21 @@ class Real:
         self.reg_graph(g)
 
     # ---- operations (return "ok"/"raised", out)
+    # the exception types the public API documents (or wraps) for a rejected request; anything else is a crash
+    ALLOWED_EXC = {
+        "shard": {"ValueError"}, "setStage": {"ValueError"}, "addCfg": {"ValueError"}, "removeCfg": {"ValueError"},
+        "replaceInput": {"ValueError"}, "resizeOutputs": {"ValueError"}, "removeNode": {"ValueError"},
+        "attachNode": {"ValueError"}, "newInit": {"ValueError"}, "rename": {"ValueError"},
+        "clone": {"RuntimeError"},  # _capture_error_context wraps the ValueError of an outer-scope value
+        "roundTrip": {"SerdeError", "ValueError"},  # unnamed sharded value / redeclared output
+    }
+
     def apply(self, op):
+        self.last_exc = None
         try:
             out = self._apply(op)
             return "ok", out
-        except (ValueError, RuntimeError, TypeError, IndexError, AttributeError, KeyError, AssertionError) as e:
+        except Exception as e:  # the type is checked by the caller against ALLOWED_EXC
             self.last_exc = type(e).__name__
             return "raised", None
 
@@ -341,8 +370,41 @@ class Real:
         elif k == "newSubgraph":
             node = self.nodes[op["n"]]
             g = ir.Graph([], [], nodes=[], name=f"g{len(self.graphs)}")
-            node.attributes.add(ir.AttrGraph(f"sub{len(self.graphs)}", g))
+            if "gs" in node.attributes:
+                # this node keeps all its subgraphs in one GRAPHS attribute
+                node.attributes.add(ir.AttrGraphs("gs", list(node.attributes["gs"].as_graphs()) + [g]))
+            elif op.get("graphs") and not self.subgraphs_of(node):
+                node.attributes.add(ir.AttrGraphs("gs", [g]))
+            else:
+                node.attributes.add(ir.AttrGraph(f"sub{len(self.graphs)}", g))
             self.reg_graph(g)
+        elif k == "newInit":
+            import numpy as np
+
+            shape = op["shape"]
+            tensor = ir.tensor(np.zeros(tuple(shape), dtype=np.float32), name=op["name"])
+            v = ir.Value(name=op["name"], shape=ir.Shape(shape), type=ir.TensorType(ir.DataType.FLOAT), const_value=tensor)
+            self.graphs[op["g"]].register_initializer(v)
+            self.reg_value(v)
+        elif k == "attachNode":
+            self.graphs[op["g"]].append(self.nodes[op["n"]])
+        elif k == "setShape":
+            self.values[op["v"]].shape = None if op["shape"] is None else ir.Shape(op["shape"])
+        elif k == "setDev":
+            md = self.md
+            recs = []
+            for c, specs, stage in op["dev"]:
+                sp = []
+                for v, devs, dims in specs:
+                    sd = tuple(
+                        md.ShardedDim(axis=a, simple_shardings=(md.SimpleShardedDim(
+                            dim=d if isinstance(d, int) else ir.SymbolicDim(d), num_shards=kk),))
+                        for a, d, kk in dims)
+                    sp.append(md.ShardingSpec(value=self.values[v], device=tuple(devs), sharded_dims=sd))
+                recs.append(md.NodeDeviceConfiguration(configuration=self.cfgs[c], sharding_specs=tuple(sp), pipeline_stage=stage))
+            self.nodes[op["n"]].device_configurations = tuple(recs)
+        elif k == "setModelCfgs":
+            self.models[op["m"]].device_configurations = tuple(self.cfgs[c] for c in op["cfgs"])
         elif k == "newNode":
             ins = [None if i is None else self.values[i] for i in op["ins"]]
             outs = [self.mk_value(o["name"], o["shape"]) for o in op["outs"]]
@@ -389,7 +451,7 @@ class Real:
             for v in node.outputs:
                 self.reg_value(v)
         elif k == "clone":
-            m2 = self.models[op["m"]].clone()
+            m2 = self.models[op["m"]].clone(deep_copy=bool(op.get("deep")))
             self._reg_clone_graph(m2.graph)
             self.models.append(m2)
         elif k == "roundTrip":
@@ -431,6 +493,8 @@ def shard_should_raise(real: Real, op) -> bool:
         return True
     if op["stage"] is not None and op["stage"] < 0:
         return True
+    if any(not (0 <= d < cfg.num_devices) for d in op["devs"]):
+        return True
     r = _rank(v)
     if r is not None and not (-r <= op["axis"] < r):
         return True
@@ -439,15 +503,17 @@ def shard_should_raise(real: Real, op) -> bool:
             if op["stage"] is not None and nc.pipeline_stage is not None and nc.pipeline_stage != op["stage"]:
                 return True
             for s in nc.sharding_specs:
-                if s.value is v and any(_norm(r, d.axis) == _norm(r, op["axis"]) for d in s.sharded_dims):
-                    return True
+                if s.value is v:  # the loop of shard() extends the first spec of the value and stops
+                    if any(_norm(r, d.axis) == _norm(r, op["axis"]) for d in s.sharded_dims):
+                        return True
+                    break
             break
     return False
 
 
-def oracle_nodangle(real: Real, part, hist_id, step, strict: bool):
+def oracle_nodangle(real: Real, part, hist_id, step, strict: bool, raw: bool = False):
     """No spec targets a value outside its node; strict: registered configs + checker silent."""
-    for n in real.nodes:
+    for n in ([] if raw else real.nodes):
         io = {id(x) for x in list(n.inputs) + list(n.outputs) if x is not None}
         for nc in n.device_configurations:
             for s in nc.sharding_specs:
@@ -570,6 +636,7 @@ class Gen:
         self.rng, self.real, self.strict = rng, real, strict
         self.fresh = 0
         self.tainted = False  # a wild op made the strict clauses inapplicable
+        self.raw = False  # a hand-built annotation tuple was assigned: even "no dangling spec" is not claimed
 
     def name(self, prefix="v"):
         self.fresh += 1
@@ -584,7 +651,7 @@ class Gen:
 
     def model_values(self, model):
         real = self.real
-        vs = [real.vid[id(v)] for g in model.graphs() for v in g.inputs]
+        vs = [real.vid[id(v)] for g in model.graphs() for v in list(g.inputs) + list(g.initializers.values())]
         for n in real.all_nodes(model):
             vs += [real.vid[id(v)] for v in list(n.inputs) + list(n.outputs) if v is not None]
         return sorted(set(vs))
@@ -603,13 +670,14 @@ class Gen:
         nodes before the owner"""
         real = self.real
         vs = [real.vid[id(v)] for v in graph.inputs] + [real.vid[id(v)] for n in graph for v in n.outputs]
+        vs += [real.vid[id(v)] for v in graph.initializers.values()]
         g, hops = graph, 0
         while hops < 8:
             owner = self.owner_of(g)
             if owner is None or owner.graph is None:
                 break
             pg = owner.graph
-            vs += [real.vid[id(v)] for v in pg.inputs]
+            vs += [real.vid[id(v)] for v in pg.inputs] + [real.vid[id(v)] for v in pg.initializers.values()]
             for n in pg:
                 if n is owner:
                     break
@@ -650,9 +718,11 @@ class Gen:
             ("removeCfg", 4), ("rename", 8), ("replaceInput", 10), ("resizeOutputs", 6),
             ("resizeInputs", 4), ("newNode", 7), ("newInput", 3), ("removeNode", 4), ("clone", 3),
             ("roundTrip", 4), ("shardingOf", 2), ("removeCfgBad", 1), ("newSubgraph", 4),
+            ("newInit", 4), ("newInitBad", 1), ("attachNode", 3), ("setShape", 2), ("setDev", 2), ("setModelCfgs", 1),
         ]
         if not strict:
-            menu += [("wildShard", 6), ("removeCfgNoCascade", 2), ("renameWild", 3)]
+            menu += [("wildShard", 6), ("removeCfgNoCascade", 2), ("renameWild", 3), ("setDevWild", 3),
+                     ("setModelCfgsWild", 2), ("setShapeWild", 3), ("attachNodeWild", 2)]
         kind = r.choices([k for k, _ in menu], [w for _, w in menu])[0]
         if not real.values or not real.nodes:
             kind = r.choice(["newInput", "newNode"])
@@ -667,7 +737,82 @@ class Gen:
             if not nodes_in:
                 kind = "newNode"
             else:
-                return {"op": "newSubgraph", "n": r.choice(nodes_in)}
+                return {"op": "newSubgraph", "n": r.choice(nodes_in), "graphs": r.random() < 0.3}
+        if kind == "newInit":
+            shape = [r.choice([1, 2, 3, 4]) for _ in range(r.choice([0, 1, 2, 2, 3]))]
+            return {"op": "newInit", "g": g, "name": self.name("w"), "shape": shape}
+        if kind == "newInitBad":
+            existing = [v.name for v in graph.initializers.values()]
+            nm = r.choice(existing) if existing and r.random() < 0.7 else ""
+            return {"op": "newInit", "g": g, "name": nm, "shape": [2]}
+        if kind in ("attachNode", "attachNodeWild"):
+            detached = [i for i, nd_ in enumerate(real.nodes) if nd_.graph is None]
+            if kind == "attachNodeWild":
+                self.tainted = True
+                cand = detached + ([r.randrange(len(real.nodes))] if real.nodes else [])
+                if not cand:
+                    kind = "newNode"
+                else:
+                    return {"op": "attachNode", "g": g, "n": r.choice(cand)}
+            else:
+                # in-alphabet: every configuration referenced by the node and by everything nested under it
+                # is registered on the model that owns the target graph
+                reg = {id(c) for c in model.device_configurations}
+
+                def sub_ok(nd_):
+                    if any(nc.configuration is None or id(nc.configuration) not in reg for nc in nd_.device_configurations):
+                        return False
+                    return all(sub_ok(k2) for sg in real.subgraphs_of(nd_) for k2 in sg)
+
+                cand = [i for i in detached if sub_ok(real.nodes[i])]
+                if r.random() < 0.25:
+                    cand += [real.nid[id(k2)] for k2 in graph]  # a node of the graph itself is moved to its end
+                if not cand:
+                    kind = "newNode"
+                else:
+                    return {"op": "attachNode", "g": g, "n": r.choice(cand)}
+        if kind in ("setShape", "setShapeWild"):
+            inits = {id(v) for gg in real.graphs for v in gg.initializers.values()}
+            sharded = {id(sp.value) for nd_ in real.nodes for nc in nd_.device_configurations for sp in nc.sharding_specs}
+            cand = [i for i, v in enumerate(real.values) if id(v) not in inits and (kind == "setShapeWild" or id(v) not in sharded)]
+            if kind == "setShapeWild":
+                self.tainted = True
+            if not cand:
+                kind = "newNode"
+            else:
+                return {"op": "setShape", "v": r.choice(cand), "shape": self.shape()}
+        if kind == "setDev":
+            # in-alphabet direct assignment: a well-formed tuple (the node's own records, some of them dropped)
+            if not nodes_in:
+                kind = "newNode"
+            else:
+                n = r.choice(nodes_in)
+                dev = real.node_dev(real.nodes[n])
+                keep = [rec for rec in dev if r.random() < 0.6]
+                return {"op": "setDev", "n": n, "dev": keep}
+        if kind == "setDevWild":
+            self.tainted = True
+            self.raw = True
+            n = r.randrange(len(real.nodes))
+            dev = []
+            for _ in range(r.choice([0, 1, 2])):
+                if not real.cfgs:
+                    break
+                specs = []
+                for _ in range(r.choice([0, 1, 2])):
+                    dims = [[r.choice([-3, -1, 0, 1, 2, 5]), r.choice([2, "N", None]), r.choice([0, 1, 2])] for _ in range(r.choice([0, 1, 2]))]
+                    specs.append([self.pick_value(), [r.randrange(-1, 4) for _ in range(r.choice([0, 1, 2]))], dims])
+                dev.append([r.randrange(len(real.cfgs)), specs, r.choice([None, 0, 1, -1])])
+            return {"op": "setDev", "n": n, "dev": dev}
+        if kind == "setModelCfgs":
+            regs = [real.cid[id(c)] for c in model.device_configurations]
+            return {"op": "setModelCfgs", "m": m, "cfgs": regs}
+        if kind == "setModelCfgsWild":
+            self.tainted = True
+            if not real.cfgs:
+                kind = "addCfg"
+            else:
+                return {"op": "setModelCfgs", "m": m, "cfgs": [r.randrange(len(real.cfgs)) for _ in range(r.choice([0, 1, 2, 3]))]}
         if kind == "newInput":
             return {"op": "newInput", "g": g, "name": self.name("x"), "shape": self.shape()}
         if kind == "newNode":
@@ -809,7 +954,7 @@ class Gen:
             n = r.randrange(len(real.nodes))
             return {"op": "resizeInputs", "n": n, "k": r.choice([0, 1, 2, 3])}
         if kind == "clone":
-            return {"op": "clone", "m": m}
+            return {"op": "clone", "m": m, "deep": r.random() < 0.3}
         if kind == "roundTrip":
             if strict:
                 # the in-alphabet condition asks for unique names of the named values; a previous round trip may
@@ -865,10 +1010,10 @@ def run_history(seed: int, strict: bool, length: int, part: Part, fixed_ops=None
             drop_node = op["n"]
             before_dev = real.node_dev(real.nodes[drop_node])
         res, out = real.apply(op)
-        if k == "resizeOutputs" and res == "ok":
-            # anonymous outputs were registered and named "" by reg_value; in the strict stream
-            # give them fresh names (a separate rename op, mirrored in the model)
-            pass
+        if res == "raised" and real.last_exc not in Real.ALLOWED_EXC.get(k, set()):
+            part.fail(f"unexpected-exception-type:{k}:{real.last_exc}",
+                      "the call failed with an exception type that is not a documented rejection",
+                      {"history": hist_id, "ops": list(ops) + [op]})
         after = real.state()
         prev_state = after
         ops.append(op)
@@ -884,13 +1029,20 @@ def run_history(seed: int, strict: bool, length: int, part: Part, fixed_ops=None
         ops_snapshot = list(ops)
         if res == "raised" and before != after:
             part.fail(f"reject-not-atomic {k}", "a raising call changed the IR", {"history": hist_id, "ops": ops_snapshot, "step": step_info})
+        if k in ("shard", "setStage") and res == "ok":
+            owner = real.model_of(real.nodes[op["n"]])
+            if (owner is not None and not any(real.cfgs[op["c"]] is c for c in owner.device_configurations)
+                    and not any(f["signature"].startswith("accepted-unregistered-configuration:" + k) for f in part["failures"])):
+                part.fail(f"accepted-unregistered-configuration:{k}",
+                          "an annotation request with a configuration that is not registered on the node's model is accepted",
+                          {"history": hist_id, "ops": ops_snapshot, "step": step_info})
         if should_raise is not None and should_raise != (res == "raised"):
             part.fail(
                 f"{k} {'accepted an invalid' if should_raise else 'rejected a valid'} request",
                 "validation outcome differs from the documented contract",
                 {"history": hist_id, "ops": ops_snapshot, "step": step_info},
             )
-        if drop_node is not None and res == "ok":
+        if drop_node is not None and res == "ok" and not gen.raw:
             node = real.nodes[drop_node]
             exp = expected_after_drop(real, before_dev, node)
             if real.node_dev(node) != exp:
@@ -906,9 +1058,10 @@ def run_history(seed: int, strict: bool, length: int, part: Part, fixed_ops=None
                 part.fail("sharding_of", "sharding_of() differs from the specs targeting the value", {"history": hist_id, "ops": ops_snapshot, "step": step_info})
         if k in ("clone", "roundTrip") and res == "ok":
             oracle_copy(real, part, hist_id, ops_snapshot, step_info, op, strict and not gen.tainted)
-        oracle_nodangle(real, part, {"history": hist_id, "ops": ops_snapshot}, step_info, strict and not gen.tainted)
+        oracle_nodangle(real, part, {"history": hist_id, "ops": ops_snapshot}, step_info, strict and not gen.tainted, gen.raw)
         oracle_names_current(real, part, {"history": hist_id, "ops": ops_snapshot}, step_info)
-        if len(part["failures"]) > nfail0 and todo is None:
+        if todo is None and any(not f["signature"].startswith("accepted-unregistered-configuration:")
+                                for f in part["failures"][nfail0:]):
             break
     return ops, steps, annotated and edited
 
@@ -940,10 +1093,12 @@ def oracle_copy(real: Real, part, hist_id, ops, step_info, op, strict):
                 part.fail(f"{op['op']}-spec-count", "number of sharding specs differs", {"history": hist_id, "ops": ops, "step": step_info})
                 continue
             for sa, sb in zip(ca.sharding_specs, cb.sharding_specs):
-                if (sa.value.name, sa.device, [(d.axis, d.simple_shardings[0].num_shards) for d in sa.sharded_dims]) != (
-                    sb.value.name, sb.device, [(d.axis, d.simple_shardings[0].num_shards) for d in sb.sharded_dims]):
+                def dims(sp):
+                    return [(d.axis, Real._dim(d.simple_shardings[0].dim), d.simple_shardings[0].num_shards) for d in sp.sharded_dims]
+
+                if (sa.value.name, sa.device, dims(sa)) != (sb.value.name, sb.device, dims(sb)):
                     part.fail(f"{op['op']}-spec-fields", "a sharding spec changed", {"history": hist_id, "ops": ops, "step": step_info})
-                if id(sb.value) in src_vals and op["op"] == "clone":
+                if id(sb.value) in src_vals and op["op"] == "clone" and strict:
                     part.fail("clone-aliases-source-value", "a cloned spec still targets a value of the source graph", {"history": hist_id, "ops": ops, "step": step_info})
 
 
@@ -1020,7 +1175,8 @@ def _worker(arg):
         try:
             ops, steps, nontrivial = run_history(seed, strict, length, part)
         except Exception as e:  # harness bug or an unexpected exception type from the library
-            part.fail(f"harness-exception {type(e).__name__}", repr(e)[:300], {"seed": seed, "strict": strict})
+            part.fail(f"harness-exception {type(e).__name__}", repr(e)[:300],
+                      {"seed": seed, "strict": strict, "length": length, "regenerate": "history"})
             continue
         part.case(ops, nontrivial=nontrivial, sample={"strict": strict, "ops": ops[:12]},
                   stream="strict" if strict else "wild", length=min(len(ops) // 5 * 5, 40))
@@ -1031,33 +1187,70 @@ def _worker(arg):
 # --------------------------------------------------------------------------- oracle-only stream: subgraphs + functions
 
 
-def _rich_model(ir):
+def _rich_model(ir, r):
+    """A random model: main graph with inputs, an initializer, a chain of nodes some of which own subgraphs
+    (GRAPH or GRAPHS attributes) whose nodes use outer-scope values, call nodes to 1-2 random functions (one
+    call passes fewer inputs than the function declares), IR version 10-12."""
+    import numpy as np
+
     F = ir.TensorType(ir.DataType.FLOAT)
+    cnt = [0]
 
-    def V(name, shape=None):
-        return ir.Value(name=name, shape=None if shape is None else ir.Shape(shape), type=F)
+    def V(prefix, shape="rand"):
+        cnt[0] += 1
+        if shape == "rand":
+            shape = r.choice([None, [2, 3], [4], [2, "N"], [2, 3, 4]])
+        return ir.Value(name=f"{prefix}{cnt[0]}", shape=None if shape is None else ir.Shape(shape), type=F)
 
-    x, y, c, a = V("x", [2, 3]), V("y", None), V("cond", []), V("a", [2, "N"])
-    nA = ir.Node("", "Add", [x, y], outputs=[a], name="A")
-    t1 = V("t1", [2, 3])
-    nt = ir.Node("", "Relu", [a], outputs=[t1], name="T")
-    t2 = V("t2", None)
-    nt2 = ir.Node("", "Mul", [t1, x], outputs=[t2], name="T2")
-    then_g = ir.Graph([], [t2], nodes=[nt, nt2], name="then")
-    e1 = V("e1", [2, 3])
-    ne = ir.Node("", "Neg", [a], outputs=[e1], name="E")
-    else_g = ir.Graph([], [e1], nodes=[ne], name="else")
-    i1 = V("i1", [2, 3])
-    nIf = ir.Node("", "If", [c], [ir.AttrGraph("then_branch", then_g), ir.AttrGraph("else_branch", else_g)], outputs=[i1], name="If")
-    f1 = V("f1", [2, 3])
-    nF = ir.Node("custom", "F", [i1], outputs=[f1], name="callF")
-    g = ir.Graph([x, y, c], [f1], nodes=[nA, nIf, nF], opset_imports={"": 20, "custom": 1}, name="main")
-    fx, fm, fo = V("fx", None), V("fm", [4, 4, 4]), V("fo", None)
-    fn1 = ir.Node("", "Relu", [fx], outputs=[fm], name="F1")
-    fn2 = ir.Node("", "Neg", [fm], outputs=[fo], name="F2")
-    fg = ir.Graph([fx], [fo], nodes=[fn1, fn2], opset_imports={"": 20}, name="Fbody")
-    func = ir.Function("custom", "F", graph=fg, attributes=[])
-    return ir.Model(g, ir_version=11, functions=[func])
+    def node(op, ins, nout=1, domain=""):
+        cnt[0] += 1
+        return ir.Node(domain, op, ins, outputs=[V("o") for _ in range(nout)], name=f"N{cnt[0]}")
+
+    inputs = [V("x") for _ in range(r.choice([1, 2, 3]))]
+    wshape = [r.choice([2, 3]) for _ in range(r.choice([1, 2]))]
+    wt = ir.tensor(np.zeros(tuple(wshape), dtype=np.float32), name="W")
+    w = ir.Value(name="W", shape=ir.Shape(wshape), type=F, const_value=wt)
+    pool = list(inputs) + [w]
+    nodes = []
+    # functions
+    funcs = []
+    for fi in range(r.choice([1, 1, 2])):
+        fins = [V("fx") for _ in range(r.choice([1, 2]))]
+        fpool, fnodes = list(fins), []
+        for _ in range(r.choice([1, 2, 3])):
+            nd = node("FOp", [r.choice(fpool) for _ in range(r.choice([1, 2]))])
+            fnodes.append(nd)
+            fpool += list(nd.outputs)
+        fg = ir.Graph(fins, [fnodes[-1].outputs[0]], nodes=fnodes, opset_imports={"": 20}, name=f"Fb{fi}")
+        funcs.append(ir.Function("custom", f"F{fi}", graph=fg, attributes=[]))
+    for _ in range(r.choice([2, 3, 4])):
+        nd = node("Op", [r.choice(pool) for _ in range(r.choice([1, 2]))], r.choice([1, 1, 2]))
+        if r.random() < 0.5:
+            subs = []
+            for _ in range(r.choice([1, 2])):
+                sin = [V("si")] if r.random() < 0.3 else []
+                spool, snodes = pool + sin, []
+                for _ in range(r.choice([1, 2])):
+                    k = node("SOp", [r.choice(spool) for _ in range(r.choice([1, 2]))])
+                    snodes.append(k)
+                    spool = spool + list(k.outputs)
+                subs.append(ir.Graph(sin, [snodes[-1].outputs[0]], nodes=snodes, name=f"sub{cnt[0]}"))
+            if len(subs) > 1 and r.random() < 0.5:
+                nd.attributes.add(ir.AttrGraphs("branches", subs))
+            else:
+                for i, sg in enumerate(subs):
+                    nd.attributes.add(ir.AttrGraph(f"body{i}", sg))
+        nodes.append(nd)
+        pool += list(nd.outputs)
+    for f in funcs:
+        nin = len(f.inputs)
+        k = nin if r.random() < 0.6 else max(1, nin - 1)  # a trailing optional input may be missing
+        cnt[0] += 1
+        call = ir.Node("custom", f.name, [r.choice(pool) for _ in range(k)], outputs=[V("c")], name=f"call{cnt[0]}")
+        nodes.append(call)
+        pool += list(call.outputs)
+    g = ir.Graph(inputs, [nodes[-1].outputs[0]], nodes=nodes, initializers=[w], opset_imports={"": 20, "custom": 1}, name="main")
+    return ir.Model(g, ir_version=r.choice([10, 11, 11, 11, 12]), functions=funcs)
 
 
 def _rich_nodes(m):
@@ -1080,7 +1273,7 @@ def _rich_summary(m):
     return out
 
 
-def _rich_oracle(md, m, part, what, case):
+def _rich_oracle(md, m, part, what, case, inlined=False):
     reg = {id(c) for c in m.device_configurations}
     for n in _rich_nodes(m):
         io = {id(v) for v in list(n.inputs) + list(n.outputs) if v is not None}
@@ -1091,6 +1284,10 @@ def _rich_oracle(md, m, part, what, case):
                 if s.value is None or id(s.value) not in io:
                     part.fail(f"rich: dangling-spec after {what}", "spec targets a value outside its node (subgraph/function stream)", case)
     msgs = md._check_device_configurations(m)
+    if inlined:
+        # inlining substitutes the actual arguments for the formal parameters of a function: an axis accepted
+        # for a parameter of unknown rank can be out of range / repeated for the argument (observation, not C19)
+        msgs = [x for x in msgs if _kind(x) not in ("axisRange", "axisRepeat")]
     if msgs:
         part.fail(f"rich: checker-not-silent after {what}: {_kind(msgs[0])}", msgs[0], case)
 
@@ -1105,16 +1302,18 @@ def run_rich(seed: int, length: int, part: Part):
     from onnx_ir import serde
 
     r = random.Random(seed)
-    m = _rich_model(ir)
+    m = _rich_model(ir, r)
     cfgs = [m.add_device_configuration("c0", num_devices=2), m.add_device_configuration("c1", num_devices=3)]
-    log = []
+    log = [("model", m.ir_version, len(_rich_nodes(m)), len(m.functions))]
     fresh = [0]
+    inlined = False
     for _ in range(length):
         nodes = _rich_nodes(m)
         n = r.choice(nodes)
-        kind = r.choices(["shard", "stage", "rename", "replace", "cascade", "addcfg", "clone", "roundtrip", "grow"],
-                         [30, 6, 10, 12, 4, 4, 5, 6, 3])[0]
-        case = {"seed": seed, "log": log}
+        kind = r.choices(["shard", "stage", "rename", "replace", "cascade", "addcfg", "clone", "roundtrip", "grow",
+                          "graphclone", "funcclone", "inline"],
+                         [30, 6, 10, 12, 4, 4, 5, 6, 3, 4, 3, 3])[0]
+        case = {"seed": seed, "length": length, "log": log}
         try:
             if kind == "shard" and m.device_configurations:
                 io = [v for v in list(n.inputs) + list(n.outputs) if v is not None and v.name]
@@ -1170,8 +1369,8 @@ def run_rich(seed: int, length: int, part: Part):
                 log.append(("clone",))
                 before = _rich_summary(m)
                 try:
-                    m2 = m.clone()
-                except Exception:
+                    m2 = m.clone(deep_copy=r.random() < 0.3)
+                except RuntimeError:
                     log.append(("clone-raised",))
                     continue
                 if _rich_summary(m2) != before:
@@ -1182,7 +1381,7 @@ def run_rich(seed: int, length: int, part: Part):
                         for sp in nc.sharding_specs:
                             if id(sp.value) in src:
                                 part.fail("rich: clone-aliases-source-value", "a cloned spec targets a value of the source model", case)
-                _rich_oracle(md, m, part, "clone(source)", case)
+                _rich_oracle(md, m, part, "clone(source)", case, inlined)
                 m = m2
             elif kind == "roundtrip":
                 log.append(("roundtrip",))
@@ -1191,9 +1390,65 @@ def run_rich(seed: int, length: int, part: Part):
                 p2 = onnx.ModelProto()
                 p2.ParseFromString(proto.SerializeToString())
                 m2 = serde.deserialize_model(p2)
-                if _rich_summary(m2) != before:
+                if m.ir_version < 11:
+                    if m2.device_configurations or any(k.device_configurations for k in _rich_nodes(m2)):
+                        part.fail("rich: roundtrip-ir<11", "annotations or configurations serialized below IR version 11", case)
+                elif _rich_summary(m2) != before:
                     part.fail("rich: round trip changes annotations", "annotations after serialize/deserialize differ (by names)", case)
                 m = m2
+                if m.ir_version < 11:
+                    cfgs = []
+            elif kind == "graphclone":
+                # Graph.clone(allow_outer_scope_values=True) of a subgraph: outer values are kept, specs on them too
+                subs = [sg for k in nodes for sg in Real.subgraphs_of(k)]
+                if subs:
+                    sg = r.choice(subs)
+                    log.append(("graphclone", sg.name))
+                    try:
+                        g2 = sg.clone(allow_outer_scope_values=True, deep_copy=r.random() < 0.3)
+                    except RuntimeError:
+                        log.append(("graphclone-raised",))
+                        continue
+                    own = {id(v) for k in sg for v in k.outputs} | {id(v) for v in sg.inputs}
+                    for k in g2.all_nodes():
+                        io = {id(v) for v in list(k.inputs) + list(k.outputs) if v is not None}
+                        for nc in k.device_configurations:
+                            for sp in nc.sharding_specs:
+                                if id(sp.value) not in io:
+                                    part.fail("rich: graph-clone dangling-spec", "a spec of the cloned subgraph targets a value outside its node", case)
+                                if id(sp.value) in own:
+                                    part.fail("rich: graph-clone aliases source value", "a cloned spec targets a value defined in the source subgraph", case)
+            elif kind == "funcclone" and m.functions:
+                f = r.choice(list(m.functions.values()))
+                log.append(("funcclone", f.name))
+                try:
+                    f2 = f.clone()
+                except RuntimeError:
+                    log.append(("funcclone-raised",))
+                    continue
+                srcv = {id(v) for k in f.all_nodes() for v in list(k.inputs) + list(k.outputs) if v is not None}
+                a = [[(nc.configuration.name, nc.pipeline_stage, [(sp.value.name, sp.device) for sp in nc.sharding_specs]) for nc in k.device_configurations] for k in f.all_nodes()]
+                b = [[(nc.configuration.name, nc.pipeline_stage, [(sp.value.name, sp.device) for sp in nc.sharding_specs]) for nc in k.device_configurations] for k in f2.all_nodes()]
+                if a != b:
+                    part.fail("rich: Function.clone changes annotations", "annotations of the cloned function differ", case)
+                for k in f2.all_nodes():
+                    io = {id(v) for v in list(k.inputs) + list(k.outputs) if v is not None}
+                    for nc in k.device_configurations:
+                        for sp in nc.sharding_specs:
+                            if id(sp.value) not in io or id(sp.value) in srcv:
+                                part.fail("rich: Function.clone dangling-spec", "a cloned function spec targets a foreign value", case)
+            elif kind == "inline" and m.functions:
+                from onnx_ir.passes.common import InlinePass
+
+                log.append(("inline",))
+                try:
+                    # the pass works in place and is not atomic when it raises (not this property): run it on a clone
+                    m_try = InlinePass()(m.clone()).model
+                except Exception as e:  # inlining / cloning have their own preconditions: not this property
+                    log.append(("inline-raised", type(e).__name__))
+                    continue
+                m = m_try
+                inlined = True
             elif kind == "grow":
                 k = len(n.outputs)
                 log.append(("grow", n.name))
@@ -1204,7 +1459,7 @@ def run_rich(seed: int, length: int, part: Part):
         except ValueError:
             log.append(("raised",))
         part.count(f"rich_op={kind}")
-        _rich_oracle(md, m, part, kind, {"seed": seed, "log": list(log)})
+        _rich_oracle(md, m, part, kind, {"seed": seed, "length": length, "log": list(log)}, inlined)
         if part["failures"]:
             break
     part.case(["rich", seed, log], nontrivial=len(log) > 3, stream="rich-oracle-only")
@@ -1218,7 +1473,8 @@ def _rich_worker(arg):
         try:
             run_rich(seed0 + j, length, part)
         except Exception as e:
-            part.fail(f"rich: harness-exception {type(e).__name__}", repr(e)[:300], {"seed": seed0 + j})
+            part.fail(f"rich: harness-exception {type(e).__name__}", repr(e)[:300],
+                      {"seed": seed0 + j, "length": length, "regenerate": "rich"})
     return part
 
 
@@ -1254,8 +1510,19 @@ def run(ctx: Ctx) -> None:
 def replay(ctx: Ctx, obj: dict) -> None:
     logging.disable(logging.CRITICAL)
     case = obj.get("case", obj)
-    ops = case.get("ops")
+    ops = case.get("ops") or case.get("history", {}).get("ops")
     if ops is None:
+        # a case recorded without its operations (rich stream, harness exception): regenerate it from the seed
+        part = Part()
+        if "log" in case or case.get("regenerate") == "rich":
+            run_rich(case["seed"], case.get("length", 45), part)
+        elif "seed" in case:
+            ops2, steps, _ = run_history(case["seed"], bool(case.get("strict")), case.get("length", 40), part)
+            compare(ops2, steps, part, {"replay": True, "strict": bool(case.get("strict"))})
+        else:
+            return
+        ctx.case(["regenerated", case.get("seed")], nontrivial=True, stream="corpus")
+        ctx.merge(part)
         return
     part = Part()
     strict = bool(case.get("history", {}).get("strict", case.get("strict", False)))
